@@ -383,6 +383,10 @@ def gen_quantifier_nest(rng, reuse=False):
     def quantified(name=None):
         name = name or fresh()
         inner = ["cmp", rng.choice(CMP), ["attr", ["var", "y"], rng.choice("ab")], ["attr", ["var", name], rng.choice("ab")]]
+        if rng.random() < 0.5:
+            # a comparison with a literal inside the quantified condition, which and / or may or may not reach
+            about_y = atom_y()
+            inner = [rng.choice(["and", "or"]), inner, about_y] if rng.random() < 0.5 else [rng.choice(["and", "or"]), about_y, inner]
         return [rng.choice(["exists", "forall"]), name, inner]
 
     def nest(depth):
